@@ -33,7 +33,7 @@ def main():
         if m.HARNESS not in seen:
             seen.add(m.HARNESS)
             try:
-                print("harness:", vf.build_harness(*m.HARNESS))
+                print("harness:", vf.build_harness(m.HARNESS))
             except vf.BuildError as e:
                 print(e)
                 ok = False
